@@ -206,7 +206,58 @@ func condWriterRules(c *core.Ctx, w *condWait, rLock, rSignal *core.Rule) {
 			}
 			c.Touch(f)
 			fl := core.NewFlow(p, info, body)
-			lk := fl.LockAnalysis(nil)
+			// a helper that receives the owner as a parameter runs under its callers' locks: when every
+			// call site holds the cond's lock on the argument, the helper's body starts with it held
+			entry := core.LockSet{}
+			if body == f.Decl.Body {
+				sig := f.Obj.Type().(*types.Signature)
+				cg := c.CG()
+				for i := 0; i < sig.Params().Len(); i++ {
+					if namedOf(sig.Params().At(i).Type()) != w.Owner {
+						continue
+					}
+					callers := cg.In[f]
+					all := len(callers) > 0
+					for _, cs := range callers {
+						if cs.Caller == nil || cs.Caller.Decl.Body == nil || i >= len(cs.Call.Args) {
+							all = false
+							continue
+						}
+						cb := core.BodyContaining(cs.Caller.Decl, cs.Call)
+						cfl := core.NewFlow(p, cs.Caller.Info(), cb)
+						clk := cfl.LockAnalysis(nil)
+						held, ok := clk.HeldAtNode(cs.Call)
+						if !ok || !w.lockHeld(held, core.ExprStr(cs.Call.Args[i])) {
+							all = false
+						}
+					}
+					if all {
+						entry[sig.Params().At(i).Name()+"."+w.CondField.Name()+".L"] = 2
+					}
+				}
+			}
+			lk := fl.LockAnalysis(entry)
+			// callees that signal this cond on every path (one level)
+			signals := func(call *ast.CallExpr) bool {
+				t := p.ByObj[core.Callee(info, call)]
+				if t == nil || t.Decl.Body == nil || t == f {
+					return false
+				}
+				ti := t.Info()
+				tfl := core.NewFlow(p, ti, t.Decl.Body)
+				return !tfl.ExitWithout(tfl.Entry(), nil, false, func(n ast.Node) bool {
+					if _, isDefer := n.(*ast.DeferStmt); isDefer {
+						return false
+					}
+					hit := false
+					core.Calls(n, false, func(c2 *ast.CallExpr) {
+						if core.IsCallTo(ti, c2, "sync.Cond.Broadcast", "sync.Cond.Signal") && core.FieldOf(ti, core.RecvExpr(c2)) == w.CondField {
+							hit = true
+						}
+					})
+					return hit
+				})
+			}
 			for _, a := range writes {
 				base := core.ExprStr(a.Sel.X)
 				construct := fmt.Sprintf("%s:%s:%s", f.Key, a.Field.Name(), a.Form)
@@ -223,6 +274,16 @@ func condWriterRules(c *core.Ctx, w *condWait, rLock, rSignal *core.Rule) {
 					found := false
 					core.Calls(n, false, func(call *ast.CallExpr) {
 						if !core.IsCallTo(info, call, "sync.Cond.Broadcast", "sync.Cond.Signal") {
+							// a helper that signals the cond on all of its paths, called here
+							if signals(call) {
+								if needLock {
+									l2, ok := fl.Locate(call)
+									if !ok || !w.lockHeld(lk.HeldBefore(l2, call), base) {
+										return
+									}
+								}
+								found = true
+							}
 							return
 						}
 						r := core.RecvExpr(call)
